@@ -116,6 +116,18 @@ class AliasAnalysis:
         v = ev.value(expr, st)
         if v is not None:
             return v
+        if isinstance(expr, ast.NamedExpr):
+            return self.value_of(fi, p, idx, expr.value, st0, self_cls, depth, stack)
+        if isinstance(expr, ast.Name) and depth <= MAX_DEPTH:
+            # a local: the value of what it was last bound to
+            for j in range(idx - 1, -1, -1):
+                s = p.steps[j]
+                if expr.id in _binds(s):
+                    bound = self._bound_expr(s, expr.id)
+                    if bound is None or (isinstance(bound, ast.Name) and bound.id == expr.id):
+                        return None
+                    return self.value_of(fi, p, j, bound, st0, self_cls, depth + 1, stack)
+            return None
         if isinstance(expr, ast.Call):
             srcs = self._eval_call(fi, p, idx, expr, st0, self_cls, depth + 1, stack)
             if len(srcs) == 1:
